@@ -20,6 +20,7 @@ var (
 		lookup func(string) (*net.Interface, error)
 		check  func(*net.Interface, func() ([]net.Addr, error)) error
 		dial   func(*net.Interface) (VerifNDPConn, netip.Addr, error)
+		byName func(string) (*net.Interface, error)
 	}
 )
 
@@ -91,5 +92,25 @@ func VerifSetDialSeams(
 ) {
 	verifMu.Lock()
 	verifSeam.lookup, verifSeam.check, verifSeam.dial = lookup, check, dial
+	verifMu.Unlock()
+}
+
+// verifInterfaceByName stands in for net.InterfaceByName inside the staged copy of
+// lookupInterface.
+func verifInterfaceByName(name string) (*net.Interface, error) {
+	verifMu.RLock()
+	f := verifSeam.byName
+	verifMu.RUnlock()
+	if f == nil {
+		return net.InterfaceByName(name)
+	}
+	return f(name)
+}
+
+// VerifSetInterfaceByName replaces (nil: restores) net.InterfaceByName as seen by
+// lookupInterface.
+func VerifSetInterfaceByName(f func(string) (*net.Interface, error)) {
+	verifMu.Lock()
+	verifSeam.byName = f
 	verifMu.Unlock()
 }
